@@ -217,13 +217,18 @@ def blocking(prefix, family, caps=(1, 2), waits=("busy", "yield00", "block00")):
             shapes = [
                 # (streams, values sent, producer drops?, consumer program)
                 ([1], 2, False, "count"), ([2], 2, False, "count"), ([1, 1], 1, False, "count"),
-                ([2], 2, True, "all"), ([1], 1, True, "all"),
+                ([2], 2, True, "all"), ([1], 1, True, "all"), ([1], 1, True, "all2"), ([2], 1, True, "all2"),
             ]
             for (streams, nv, drops, cmode) in shapes:
                 if family == "mpmc" and len(streams) > 1:
                     continue
-                t = Topo(family, 1, streams)
+                two = cmode == "all2"
+                t = Topo(family, 2 if two else 1, streams)
                 threads = [sends("tx", 101, nv, retry=True, drop=drops)]
+                if two:
+                    # two senders that finish and drop at the same time
+                    threads.append(sends("tx2", 201, nv, retry=True, drop=True))
+                    cmode = "all"
                 for hs in t.streams:
                     # values per stream = nv; consumers of one stream share them
                     per = nv // len(hs)
@@ -233,7 +238,7 @@ def blocking(prefix, family, caps=(1, 2), waits=("busy", "yield00", "block00")):
                         else:
                             n = per + (1 if i < nv - per * len(hs) else 0)
                             threads.append([S("brecv", h) for _ in range(n)] or [S("nop", h)])
-                dropped = {"tx"} if drops else set()
+                dropped = ({"tx", "tx2"} if two else {"tx"}) if drops else set()
                 name = "%s-%s-c%d-%s-%d" % (prefix, family, cap, wait, k)
                 k += 1
                 out.append(scenario(name, family, False, cap, wait, t.setup, threads, final_phase(t, dropped)))
@@ -254,7 +259,7 @@ def add_stream_scn(prefix, caps=(1, 2), fut=False, shared_parent=False):
     rcv = "poll" if fut else "recv"
     snd = "start_send" if fut else "send"
     for cap in caps:
-        for variant in range(3):
+        for variant in range(4):
             t = Topo("bcast", 1, [2] if shared_parent else [1])
             prod = sends("tx", 101, cap + 2, api=snd)
             if variant == 0:
@@ -267,6 +272,9 @@ def add_stream_scn(prefix, caps=(1, 2), fut=False, shared_parent=False):
                     # the adder works on a second handle-less topology: parent handle stays with the adder
                     adder = [S("add_stream", "rx", new="n1"), S(rcv, "n1"), S(rcv, "rx"), S(rcv, "n1")]
                     third = None
+            elif variant == 3:
+                adder = [S(rcv, "rx"), S("add_stream", "rx", new="n1"), S(rcv, "rx"), S(rcv, "n1"), S(rcv, "n1")]
+                third = [S(rcv, "rxb")] if shared_parent else None
             else:
                 adder = [S("add_stream", "rx", new="n1"), S("add_stream", "n1", new="n2"), S(rcv, "n2"), S(rcv, "n1")]
                 third = [S(rcv, "rxb")] if shared_parent else None
@@ -516,4 +524,40 @@ def churn(prefix, family="bcast", caps=(2,), cycles=7, fut=False):
             s = scenario(name, family, fut, cap, "busy", setup, threads, fin)
             s["livelock"] = 4000
             out.append(s)
+    return out
+
+
+def deep_shared(prefix, family="bcast", cap=4, nvals=9):
+    """a ring of 4 with two or three consumers of one stream and a producer that laps it twice: the
+    schedules that need a lost cursor race followed by a wrap-around"""
+    out = []
+    for k, ncons in enumerate((2, 3)):
+        t = Topo(family, 1, [ncons])
+        threads = [sends("tx", 101, nvals, retry=True, drop=True)] + [[S("brecv_all", h)] for h in t.streams[0]]
+        out.append(scenario("%s-%s-deep-c%d-%d" % (prefix, family, cap, k), family, False, cap, "busy", t.setup, threads,
+                            final_phase(t, {"tx"})))
+    return out
+
+
+def with_epoch_pending(scns, family_of=None):
+    """variants of scenarios whose setup first retires more than 20 objects, so that the epoch-change
+    signal is pending when the real program starts (every handle's first call takes the slow path)"""
+    out = []
+    for s in scns:
+        pre = []
+        if s["flavour"] == "bcast":
+            for i in range(6):
+                pre += [S("add_stream", "rx", new="e%d" % i), S("drop", "e%d" % i)]
+        else:
+            for i in range(22):
+                pre += [S("clone", "rx", new="e%d" % i), S("drop", "e%d" % i)]
+        s2 = dict(s)
+        s2["name"] = s["name"] + "-ep"
+        ph = [list(p) for p in s["phases"]]
+        if len(ph) >= 2 and len(ph[0]) == 1 and len(ph[1]) > 1:
+            ph[0] = [pre + list(ph[0][0])]
+        else:
+            ph = [[pre]] + ph
+        s2["phases"] = ph
+        out.append(s2)
     return out
